@@ -940,7 +940,7 @@ def gen_branch(ctx, inv, index, depth, acts_per_step, same_type=None):
     mutable = False
     if ctx.chance(p.get('names', 0.3)):
         name = 'n%d_%d' % (inv.inv, index)
-        mutable = ctx.chance(0.3)
+        mutable = ctx.chance(p.get('mut', 0.3))
     t0 = same_type if same_type is not None else start_type(ctx, inv)
     steps = []
     types = []
@@ -1854,6 +1854,17 @@ def slice_programs(slice_name, tier, master_seed, base_id):
                 p = dict(prof)
                 p['depth_profile'] = (lambda d: (lambda rng, nb: list(d)))(dp)
                 add(p, fam, 'sk-%s' % (dp,))
+    if slice_name == 'steps':
+        # named branches (`let` / `let mut`) on equal-depth and on ragged profiles, with and without a handler
+        for fam in fams:
+            for dp in [(1, 1), (2, 2), (3, 3, 3), (2, 2, 2), (1, 2), (3, 1, 2)]:
+                for hp in (0.0, 1.0):
+                    p = dict(prof)
+                    p['depth_profile'] = (lambda d: (lambda rng, nb: list(d)))(dp)
+                    p['names'] = 1.0
+                    p['mut'] = 0.6
+                    p['handler'] = hp
+                    add(p, fam, 'sk-names-%s-%s' % (dp, hp))
     if slice_name == 'nest':
         # skeleton: every macro kind nested once as an initial value, in a capture and in a handler
         for k in SYNC_KINDS + ASYNC_KINDS:
